@@ -105,5 +105,7 @@ TrueRow(S) ==
       !.available_resources = Cardinality(Machines) - Cardinality(S.cl.ingest) - Cardinality(S.cl.occ),
       !.ingest_resources = Cardinality(S.cl.ingest),
       !.running_tasks = Cardinality(S.cl.running),
-      !.finished_tasks = Cardinality({t \in DOMAIN S.cl.fin : S.cl.fin[t]}) ]
+      !.finished_tasks = Cardinality({t \in DOMAIN S.cl.fin : S.cl.fin[t]}),
+      (* waiting = has not begun, whatever status label the instrument uses *)
+      !.observations_waiting = Cardinality({o \in ObsNames : S.obs[o].ast = NoneT}) ]
 =============================================================================
